@@ -190,6 +190,29 @@ impl Prop for C06 {
 				cx.class("both-families");
 			}
 		}
+		// the same reference against a SIBLING base (authority toggled, same path text) right after, then the
+		// original again: results must not depend on what was resolved before on this thread
+		{
+			let mut sb = split(&case.base);
+			sb.authority = match sb.authority { Some(_) => None, None => Some("h".to_string()) };
+			let sib = recompose(&sb);
+			let ok_shape = split(&sib) == sb && !(sb.authority.is_some() && !sb.path.is_empty() && !sb.path.starts_with('/'));
+			if ok_shape {
+				let scase = Case { fam: case.fam, base: sib.clone(), reference: case.reference.clone() };
+				if let Some(sg) = by_fam!(case.fam, resolve_all(&scase))? {
+					let mut scx = Ctx::default();
+					judge_text(&mut scx, "resolved() (sibling base, right after)", &sib, &case.reference, &sg.0, valid(&sg.0)).map_err(|f| Failure::new(format!("after-sibling:{}", f.sig), f.msg))?;
+					for t in scx.tolerated {
+						cx.tolerated.push(t);
+					}
+					if let Some(again) = by_fam!(case.fam, resolve_all(case))? {
+						ensure!(again.0 == got.0, "depends-on-previous-call", "resolving {:?} against {:?} gives {:?}, but {:?} after resolving against the sibling base {:?} in between", case.reference, case.base, got.0, again.0, sib);
+					}
+					cx.obs(2);
+					cx.class("sibling-base");
+				}
+			}
+		}
 		cx.class("judged");
 		let b = split(&case.base);
 		let r = split(&case.reference);
